@@ -261,9 +261,25 @@ def validate_conn(sdir, lines, tag=""):
                    tag="%s-r%d" % (tag, rounds), jvm=["-Dtlc2.tool.impl.Tool.cdot=true"])
         m = re.search(r'<<"CONNTRACE", (\d+), (\d+)>>', r["out"])
         res["states"] += r.get("distinct", 0)
+        inv = re.search(r"Invariant (\w+) is violated", r["out"])
+        if not m and inv:
+            # a safety property of MC_Conn does not hold in a state of the matched behaviour: the scenario is rejected at the line
+            # that led there (reported like any other mismatch: it decides no property, the monitors do)
+            ls = [int(x) for x in re.findall(r"/\\ l = (\d+)", r["out"])]
+            reached = max(0, (max(ls) if ls else 1) - 2)
+            bi = owner[min(reached, len(owner) - 1)]
+            first = owner.index(bi)
+            res["rejected"].append({"id": blocks[bi][0].get("id"), "fam": blocks[bi][0].get("fam"), "line": flat[min(reached, len(flat) - 1)],
+                                    "at": reached - first, "before": flat[max(first, reached - 6):reached], "invariant": inv.group(1)})
+            blocks = blocks[bi + 1:]
+            continue
         if not m:
-            tail = "\n".join(l for l in r["out"].splitlines() if not l.startswith(("Parsing", "Semantic", "Linting")))[-2500:]
-            raise vf.NoVerdict("Trace_Conn validation did not finish:\n" + tail)
+            # this validation decides no property: a failure of it must not void the verdict of the monitors
+            tail = "\n".join(l for l in r["out"].splitlines() if not l.startswith(("Parsing", "Semantic", "Linting")))[-1200:]
+            res["aborted"] = tail
+            res["rejected"].append({"id": blocks[0][0].get("id"), "fam": blocks[0][0].get("fam"), "line": {"e": "validation aborted"}, "at": 0,
+                                    "before": [], "aborted": tail[-300:]})
+            break
         reached, total = int(m.group(1)), int(m.group(2))
         if reached >= total:
             break
